@@ -26,5 +26,29 @@ let () =
     | "S" :: items -> Printf.printf "S%d\n" (if sortedb (List.map key items) then 1 else 0)
     | "I" :: k :: items -> print_endline (String.concat " " (List.map show_key (insert_key (List.map key items) (key k))))
     | "L" :: k :: items -> Printf.printf "L%d\n" (if sorted_lookup (List.map key items) (key k) then 1 else 0)
+    | "X" :: icap :: bcap :: feat :: emin :: rest ->
+      (* X <ib_cap> <blk_cap> <ea_feat> <ea_min> | in-inode attrs | block attrs | S key vid vlen   or   R key
+         attr = index:hexname:vid:vlen:ea *)
+      let attr x = match String.split_on_char ':' x with
+        | [i; h; v; l; e] -> { akey = key (i ^ ":" ^ h); avid = n_of_int (int_of_string v); avlen = n_of_int (int_of_string l); aea = e = "1" }
+        | _ -> failwith "bad attr" in
+      let show_attr a = Printf.sprintf "%s:%d:%d:%d" (show_key a.akey) (int_of_n a.avid) (int_of_n a.avlen) (if a.aea then 1 else 0) in
+      let rec split acc cur = function
+        | [] -> List.rev (List.rev cur :: acc)
+        | "|" :: r -> split (List.rev cur :: acc) [] r
+        | x :: r -> split acc (x :: cur) r in
+      (match split [] [] rest with
+       | [_; ibl; bll; op] ->
+         let c = { ib_cap = n_of_int (int_of_string icap); blk_cap = n_of_int (int_of_string bcap); ea_feat = feat = "1"; ea_min = n_of_int (int_of_string emin) } in
+         let s = { ib = List.map attr ibl; bl = List.map attr bll } in
+         let show_state s = Printf.sprintf "OK | %s | %s" (String.concat " " (List.map show_attr s.ib)) (String.concat " " (List.map show_attr s.bl)) in
+         (match op with
+          | ["S"; k; vid; vl] ->
+            (match xset c s (key k) (n_of_int (int_of_string vid)) (n_of_int (int_of_string vl)) with
+             | ROk s' -> print_endline (show_state s')
+             | RNoSpace -> print_endline "NOSPACE")
+          | ["R"; k] -> print_endline (show_state (xremove s (key k)))
+          | _ -> print_endline "?")
+       | _ -> print_endline "?")
     | _ -> print_endline "?"
   done with End_of_file -> ()
